@@ -1,6 +1,7 @@
 import Ts.Spec.PesMux
 import Ts.Lemmas.C02
 import Ts.Lemmas.C02b
+import Ts.Lemmas.C02c
 import Ts.Props.C06
 import Ts.Gen.Tables
 /-!
@@ -21,7 +22,15 @@ payload-less packets in between, PES header wholly inside the first packet):
 * `next_pes_closes_previous`, `pes_stream_conservation` — sequences of PES packets.
 * `not_attributed_to_other_pid` (+ `frame_step`, `pes_step`, `interleaved_plan`) — through the
   dispatcher (`Demux.pushSpec`, which `Demultiplex::push` refines by `C06.push_refines_spec`):
-  interleaved packets of other PIDs do not touch the PES handler's slot.
+  interleaved packets of other PIDs do not touch the PES handler's slot, PROVIDED the run is quiet
+  for that slot (`QuietAlong`, a predicate on the actual run: the handlers that consume those
+  packets queue no change naming the slot).
+* `quiet_of_benign_traffic`, `not_attributed_among_es_and_repeated_tables` — the same from
+  hypotheses on the INPUT and the table at the start: the other packets belong to other elementary
+  streams, are repetitions of the tables in force (C10), or go to recorders without a scripted
+  action (`Benign`).
+* `queuesNothingFor_unsat` — why an earlier hypothesis (`QueuesNothingFor`, quantified over all
+  handlers and contexts) was replaced: it is false for every packet.
 -/
 namespace Ts.Props.C02
 open Ts Ts.Packet Ts.PesFilter Ts.Demux Ts.Spec Ts.Spec.PesMux Ts.Lemmas.C02
@@ -280,22 +289,66 @@ theorem pes_step (t : Tab App.Handler) (c : App.Ctx) (pk : Pk) (tag : Nat) (f : 
   refine ⟨fun hf => ⟨_, _, Ts.Lemmas.C08.consume_eq f pk.bytes h188, specStep_pes t c pk tag f hg hf h188⟩,
     fun hf => C06.spec_step_flagged_known App.sem t c pk hf ((Tab.contains_eq_true_iff _ _).2 ⟨_, hg⟩)⟩
 
+/-- WHY THE HYPOTHESIS WAS REPLACED.  Earlier versions of `not_attributed_to_other_pid`,
+`interleaved_plan` and of the `C02Trace` theorems assumed, for every packet `pk` of another PID,
+`QueuesNothingFor App.sem p pk`: "whatever handler consumes `pk`, in whatever context, queues no
+change naming `p`".  That is FALSE for every `p` and every `pk`: a `.recorder` handler whose
+context carries the script `[(pk.off / 188, [.ins p])]` queues an insertion for `p`.  So those
+theorems only applied to runs without any packet of another PID.  They are now stated with
+`QuietAlong` (the handlers that ACTUALLY consume the packets in this run) and, at input level, with
+`Benign`. -/
+theorem queuesNothingFor_unsat (p : Nat) (pk : Pk) : ¬ QueuesNothingFor App.sem p pk := by
+  intro h
+  have key : App.sem.consume (.recorder 0)
+      { cfg := { script := [(pk.off / 188, [.ins p])] } } pk
+      = .ok (.recorder 0,
+          (({ cfg := { script := [(pk.off / 188, [.ins p])] } : App.Ctx}.emit (.pkt 0 pk.off)
+              |> fun c1 => ({ c1 with nextTag := c1.nextTag + 1 } : App.Ctx).emit (.scriptIns p c1.nextTag))),
+          [Change.insert p (App.Handler.recorder 0)]) := by
+    simp [App.sem, App.consume, List.lookup, App.scriptChanges, App.Ctx.emit]
+  exact h _ _ _ _ _ key (Change.insert p (App.Handler.recorder 0)) (by simp) rfl
+
+/-- consequence: the old hypothesis forced the "interleaving" to contain PID-`p` packets only -/
+theorem queuesNothingFor_forces_single_pid (p : Nat) (xs : List Pk)
+    (hN : ∀ pk ∈ xs, pk.pid ≠ p → QueuesNothingFor App.sem p pk) : ∀ pk ∈ xs, pk.pid = p := by
+  intro pk hm
+  apply Classical.byContradiction
+  intro hne
+  exact queuesNothingFor_unsat p pk (hN pk hm hne)
+
+/-- `QuietAlong sem p (t, c) xs`, spelled out.  It is a predicate on the ACTUAL run of the dispatcher
+spec from `(t, c)` over `xs`: at every step on an unflagged packet `pk` of a PID other than `p`,
+THE handler `h` registered for `pk.pid` at that point (after lookup-or-construct `ensure`), run in
+THE context of that point, queues no change naming `p`; and the same holds for the rest of the
+run from the state the step leads to.  (Nothing is required of steps on PID `p`, of flagged
+packets — they are not consumed —, or after a panic.) -/
+theorem quietAlong_iff {H C : Type} (sem : Sem H C) (p : Nat) (tc : Tab H × C) (pk : Pk) (pks : List Pk) :
+    QuietAlong sem p tc [] ∧
+    (QuietAlong sem p tc (pk :: pks) ↔
+      (pk.pid ≠ p → pk.flagged = false →
+        ∀ t1 c1 h h' c2 chg, ensure sem tc.1 tc.2 pk.pid = .ok (t1, c1) → t1.get pk.pid = some h →
+          sem.consume h c1 pk = .ok (h', c2, chg) → ∀ ch ∈ chg, ch.pid ≠ p)
+      ∧ ∀ tc', specStep sem tc pk = .ok tc' → QuietAlong sem p tc' pks) :=
+  ⟨trivial, Iff.rfl⟩
+
 /-- Over ANY interleaving `xs` (the application `App.sem` under the dispatcher spec `pushSpec`, which
 the real loops refine by `C06.push_refines_spec`): if slot `p` holds a PES handler in filter state
-`f`, and no packet of another PID makes its handler queue a change naming `p`
-(`QueuesNothingFor`), then after the run slot `p` holds the same handler (same tag) whose filter
-state is the one `PesFilter.run` reaches from `f` over exactly the unflagged packets of PID `p`, in
-order.  Nothing of another PID reaches it; nothing of PID `p` is skipped. -/
+`f`, packets on `p` are 188 bytes, and the run is quiet for `p` (`hQ : QuietAlong`, a hypothesis on
+the ACTUAL run: no handler that consumes a packet of another PID in this run queues a change
+naming `p`; see `quiet_of_benign_traffic` for input-level sufficient conditions), then after the run
+slot `p` holds the same handler (same tag) whose filter state is the one `PesFilter.run` reaches
+from `f` over exactly the unflagged packets of PID `p`, in order.  Nothing of another PID reaches
+it; nothing of PID `p` is skipped. -/
 theorem not_attributed_to_other_pid (p tag : Nat) (xs : List Pk) (t : Tab App.Handler) (c : App.Ctx)
     (f : F) (t' : Tab App.Handler) (c' : App.Ctx)
     (hg : t.get p = some (.pes tag f))
     (h188 : ∀ pk ∈ xs, pk.pid = p → pk.bytes.length = 188)
-    (hN : ∀ pk ∈ xs, pk.pid ≠ p → QueuesNothingFor App.sem p pk)
+    (hQ : QuietAlong App.sem p (t, c) xs)
     (hrun : pushSpec App.sem (t, c) xs = .ok (t', c')) :
     ∃ f' evss,
       PesFilter.run f ((xs.filter (fun pk => pk.pid == p && !pk.flagged)).map (·.bytes)) = .ok (f', evss) ∧
       t'.get p = some (.pes tag f') := by
-  have hs := pushSpec_pes_slot p tag xs t c f t' c' hg h188 hN hrun
+  have hs := pushSpec_pes_slot p tag xs t c f t' c' hg h188 hQ hrun
   refine ⟨_, _, Ts.Lemmas.C08.run_eq f _ ?_, hs⟩
   intro b hb
   simp only [List.mem_map, List.mem_filter] at hb
@@ -303,38 +356,42 @@ theorem not_attributed_to_other_pid (p tag : Nat) (xs : List Pk) (t : Tab App.Ha
   simp only [Bool.and_eq_true, beq_iff_eq] at hp
   exact h188 pk hm hp.1
 
-/-- the same for the real double loop `pushModel` -/
+/-- the same for the real double loop `pushModel` (`hQ` still speaks of the spec run, which the loop
+computes: `C06.push_refines_spec`) -/
 theorem not_attributed_to_other_pid_model (p tag : Nat) (xs : List Pk) (t : Tab App.Handler)
     (c : App.Ctx) (f : F) (t' : Tab App.Handler) (c' : App.Ctx)
     (hg : t.get p = some (.pes tag f))
     (h188 : ∀ pk ∈ xs, pk.pid = p → pk.bytes.length = 188)
-    (hN : ∀ pk ∈ xs, pk.pid ≠ p → QueuesNothingFor App.sem p pk)
+    (hQ : QuietAlong App.sem p (t, c) xs)
     (hrun : pushModel App.sem (t, c) xs = .ok (t', c')) :
     ∃ f' evss,
       PesFilter.run f ((xs.filter (fun pk => pk.pid == p && !pk.flagged)).map (·.bytes)) = .ok (f', evss) ∧
       t'.get p = some (.pes tag f') := by
   rw [C06.push_refines_spec] at hrun
-  exact not_attributed_to_other_pid p tag xs t c f t' c' hg h188 hN hrun
+  exact not_attributed_to_other_pid p tag xs t c f t' c' hg h188 hQ hrun
 
-/-- COROLLARY: a well-formed plan interleaved with arbitrary traffic of other PIDs.  If the
-unflagged packets of PID `p` in `xs` are exactly the plan's packets, the PES handler ends in the
-state the plan alone leads to (`started`, counter of the plan's last packet), having produced
-(`pes_conservation`) exactly the plan's callbacks. -/
+/-- COROLLARY: a well-formed plan interleaved with traffic of other PIDs that is quiet for `p`
+(`hQ : QuietAlong`, as in `not_attributed_to_other_pid`).  If the unflagged packets of PID `p` in
+`xs` are exactly the plan's packets, the PES handler ends in the state the plan alone leads to
+(`started`, counter of the plan's last packet), having produced (`pes_conservation`) exactly the
+plan's callbacks. -/
 theorem interleaved_plan (pes : PesPkt) (pl : Plan) (p tag : Nat) (xs : List Pk)
     (t : Tab App.Handler) (c : App.Ctx) (f : F) (t' : Tab App.Handler) (c' : App.Ctx)
     (hpl : WellFormedPlan pes pl) (hcc : ∀ c ∈ f.cc, tpCc pl.first = (c + 1) % 16)
     (hg : t.get p = some (.pes tag f))
     (hsub : (xs.filter (fun pk => pk.pid == p && !pk.flagged)).map (·.bytes) = pl.packets)
     (h188 : ∀ pk ∈ xs, pk.pid = p → pk.bytes.length = 188)
-    (hN : ∀ pk ∈ xs, pk.pid ≠ p → QueuesNothingFor App.sem p pk)
+    (hQ : QuietAlong App.sem p (t, c) xs)
     (hrun : pushSpec App.sem (t, c) xs = .ok (t', c')) :
     t'.get p = some (.pes tag ⟨some pl.lastCc, .started⟩) := by
-  have hs := pushSpec_pes_slot p tag xs t c f t' c' hg h188 hN hrun
+  have hs := pushSpec_pes_slot p tag xs t c f t' c' hg h188 hQ hrun
   rw [hsub, (plan_runPure pes pl f hpl hcc).1] at hs
   exact hs
 
-/-- the hypothesis `QueuesNothingFor` holds outright for every packet consumed by a PES handler or
-(with an empty script) a recorder: they queue no change at all -/
+/-- A PES handler queues no change: if `App.sem.consume` of a handler `.pes tag f` on ANY packet, in
+ANY context, succeeds, the change list it returns is empty.  (So a step of the dispatcher on a
+packet whose PID holds a PES handler satisfies the step condition of `QuietAlong` for every `p`.
+This says nothing about recorder, PAT or PMT handlers.) -/
 theorem pes_handler_queues_nothing (tag : Nat) (f : F) (c0 : App.Ctx) (pk : Pk) (h' : App.Handler)
     (c1 : App.Ctx) (chg : List (Change App.Handler))
     (h : App.sem.consume (.pes tag f) c0 pk = .ok (h', c1, chg)) : chg = [] := by
@@ -355,6 +412,55 @@ theorem pes_handler_queues_nothing (tag : Nat) (f : F) (c0 : App.Ctx) (pk : Pk) 
       injection h with _ h
       injection h with _ h
       exact h.symm
+
+/-! ### input-level sufficient conditions: other elementary streams, repeated tables, recorders -/
+
+/-- `Benign ver script t pk`, spelled out: relative to the table `t` (the table at the START of a run),
+* (ES) the slot of `pk.pid` holds a PES handler; or
+* (TABLE) it holds a PAT / PMT handler `h` quiescent at version `ver pk.pid` (C10 `QuiescentH`: its
+  section filter remembers that version and is between sections) and `pk` is flagged or a
+  repetition packet of that version (C10 `RepPacket`, see `C10.repPacket_iff`); or
+* (REC) it holds a recorder, or nothing and `pk.pid ≠ 0` (a recorder is then constructed), and `pk`
+  is flagged or `script` has no entry for the packet's index `pk.off / 188`. -/
+theorem benign_iff (ver : Nat → Nat) (script : List (Nat × List App.ScriptOp)) (t : Tab App.Handler)
+    (pk : Pk) :
+    Benign ver script t pk ↔
+      (∃ σ g, t.get pk.pid = some (.pes σ g))
+      ∨ ((∃ h, t.get pk.pid = some h ∧ Ts.Lemmas.C10.QuiescentH (ver pk.pid) h)
+          ∧ (pk.flagged = true ∨ Ts.Lemmas.C10.RepPacket (ver pk.pid) pk.bytes))
+      ∨ (((∃ σ, t.get pk.pid = some (.recorder σ)) ∨ (t.get pk.pid = none ∧ pk.pid ≠ 0))
+          ∧ (pk.flagged = true ∨ script.lookup (pk.off / 188) = none)) := Iff.rfl
+
+/-- INPUT-LEVEL ⇒ `QuietAlong`.  Slot `p` holds a PES handler; every packet of `xs` on another PID
+is `Benign` for the table `t` and the script at the START of the run (`benign_iff`: it belongs to
+another elementary stream, or is a repetition of a table in force, or goes to a recorder without
+a scripted action).  Then the run from `(t, c)` over `xs` is quiet for `p`; in fact no handler
+taking part in it queues any change at all. -/
+theorem quiet_of_benign_traffic (ver : Nat → Nat) (p tag : Nat) (xs : List Pk) (t : Tab App.Handler)
+    (c : App.Ctx) (f : F) (hg : t.get p = some (.pes tag f))
+    (hB : ∀ pk ∈ xs, pk.pid ≠ p → Benign ver c.cfg.script t pk) :
+    QuietAlong App.sem p (t, c) xs := by
+  refine quietAlong_of_benign ver p xs t c ?_
+  intro pk hm
+  by_cases hp : pk.pid = p
+  · exact benign_of_pes ver _ t pk tag f (by rw [hp]; exact hg)
+  · exact hB pk hm hp
+
+/-- `not_attributed_to_other_pid` with hypotheses on the input only: ANY interleaving of the
+PID-`p` packets with packets of other elementary streams, repetitions of the tables in force, and
+recorder traffic without scripted action (`hB`, see `benign_iff`).  Slot `p` ends with the same
+handler in the state `PesFilter.run` reaches over exactly the unflagged PID-`p` packets. -/
+theorem not_attributed_among_es_and_repeated_tables (ver : Nat → Nat) (p tag : Nat) (xs : List Pk)
+    (t : Tab App.Handler) (c : App.Ctx) (f : F) (t' : Tab App.Handler) (c' : App.Ctx)
+    (hg : t.get p = some (.pes tag f))
+    (h188 : ∀ pk ∈ xs, pk.pid = p → pk.bytes.length = 188)
+    (hB : ∀ pk ∈ xs, pk.pid ≠ p → Benign ver c.cfg.script t pk)
+    (hrun : pushSpec App.sem (t, c) xs = .ok (t', c')) :
+    ∃ f' evss,
+      PesFilter.run f ((xs.filter (fun pk => pk.pid == p && !pk.flagged)).map (·.bytes)) = .ok (f', evss) ∧
+      t'.get p = some (.pes tag f') :=
+  not_attributed_to_other_pid p tag xs t c f t' c' hg h188
+    (quiet_of_benign_traffic ver p tag xs t c f hg hB) hrun
 
 /-! ### non-vacuity -/
 
@@ -450,6 +556,50 @@ example : exPesF.WF ∧ WellFormedPlan exPesF exPlanF ∧ headerLen exPesF = 25 
 example : PesStream none [(exPes0, exPlan0), (exPes1, exPlan1), (exPesPad, exPlanPad)] := by decide +kernel
 example : streamEvs .begin [exPlan0, exPlan1, exPlanPad] =
     [[.start, .beginPkt 174 14], [.endPkt, .beginPkt 173 15], [.endPkt, .beginPkt 4 184]] := by decide +kernel
+
+/-! ### non-vacuity of the interleaving theorems -/
+
+section interleaving
+open Ts.Lemmas.Proj
+
+/-- The hypotheses of `not_attributed_among_es_and_repeated_tables` — hence of
+`quiet_of_benign_traffic` and, with the `QuietAlong` it yields, of `not_attributed_to_other_pid` —
+are satisfiable on an interleaving that DOES contain packets of other PIDs: from the state after
+PAT and PMT (`exTab0`, `exCtx0`: PES filters tagged 2 and 3 on PIDs 0x21 and 0x22), the run over
+`exPksRep` = `A PAT B PMT B null A A` (A on PID 0x21, B on PID 0x22, a repeated PAT, a repeated PMT,
+a null packet) succeeds, is quiet for PID 0x21, and slot 0x21 ends in the state `PesFilter.run`
+reaches over the three A packets alone. -/
+example : ∃ t' c' f' evss, pushSpec App.sem (exTab0, exCtx0) exPksRep = .ok (t', c') ∧
+    QuietAlong App.sem 0x21 (exTab0, exCtx0) exPksRep ∧
+    PesFilter.run {} ((exPksRep.filter (fun pk => pk.pid == 0x21 && !pk.flagged)).map (·.bytes))
+      = .ok (f', evss) ∧
+    t'.get 0x21 = some (.pes 2 f') := by
+  have hok : ((pushSpec App.sem (exTab0, exCtx0) exPksRep).isOk
+      && exPksRep.all (fun pk => pk.bytes.length == 188)) = true := by decide +kernel
+  simp only [Bool.and_eq_true, List.all_eq_true, beq_iff_eq] at hok
+  obtain ⟨hok, hlen⟩ := hok
+  have hg : exTab0.get 0x21 = some (.pes 2 {}) := by decide +kernel
+  have hB : ∀ pk ∈ exPksRep, pk.pid ≠ 0x21 → Benign (fun _ => 0) exCtx0.cfg.script exTab0 pk :=
+    fun pk hm _ => exPksRep_benign pk hm
+  cases hrun : pushSpec App.sem (exTab0, exCtx0) exPksRep with
+  | panic s => rw [hrun] at hok; cases hok
+  | ok r =>
+    obtain ⟨t', c'⟩ := r
+    obtain ⟨f', evss, h1, h2⟩ := not_attributed_among_es_and_repeated_tables (fun _ => 0) 0x21 2
+      exPksRep exTab0 exCtx0 {} t' c' hg (fun pk hm _ => hlen pk hm) hB hrun
+    exact ⟨t', c', f', evss, rfl, quiet_of_benign_traffic _ 0x21 2 exPksRep exTab0 exCtx0 {} hg hB, h1, h2⟩
+
+/-- … and concretely (evaluated): slot 0x21 ends in `started` with counter 2, slot 0x22 with
+counter 8, the PAT handler is still quiescent at version 0 (its dedup layer is now ignoring the
+repeated section), the null PID got a recorder -/
+example : (match pushSpec App.sem (exTab0, exCtx0) exPksRep with
+    | .ok (t, c) => decide (t.get 0x21 = some (.pes 2 ⟨some 2, .started⟩)
+        ∧ t.get 0x22 = some (.pes 3 ⟨some 8, .started⟩)
+        ∧ t.get 0 = some (.pat { lastVersion := some 0, dedupIgnore := true } [0x20])
+        ∧ t.get 0x1fff = some (.recorder 4) ∧ c.nextTag = 5)
+    | .panic _ => false) = true := by decide +kernel
+
+end interleaving
 
 /-! ### tie to the value table regenerated from `StreamType::is_pes` in `/repo/src/lib.rs` -/
 /-- the stream types the SOURCE declares to be carried as PES are exactly those for which the
